@@ -92,6 +92,21 @@ pub fn is_symmetric(m: &[f64]) -> bool {
     true
 }
 
+/// Checks whether a 1D array is a square matrix with `m[i][j] == m[j][i]` for every entry. The Cholesky
+/// route of the solvers reads one triangle only, so it needs exact symmetry: the absolute tolerance of
+/// [is_symmetric] would let a non-symmetric matrix with tiny entries through.
+fn is_exactly_symmetric(m: &[f64]) -> bool {
+    let n = is_square(m).unwrap();
+    for i in 0..n {
+        for j in (i + 1)..n {
+            if m[i * n + j] != m[j * n + i] {
+                return false;
+            }
+        }
+    }
+    true
+}
+
 /// Checks whether a 1d array is a valid positive definite matrix.
 #[inline(always)]
 pub fn is_positive_definite(m: &[f64]) -> bool {
@@ -254,7 +269,7 @@ pub fn solve_sys(a: &[f64], b: &[f64]) -> Vec<f64> {
 
         // symmetry and a positive diagonal are necessary but not sufficient for positive
         // definiteness, so fall back to LU if the Cholesky decomposition does not exist
-        let chol = if is_positive_definite(a) {
+        let chol = if is_exactly_symmetric(a) && is_positive_definite(a) {
             try_cholesky(a)
         } else {
             None
@@ -310,7 +325,7 @@ pub fn solve(a: &[f64], b: &[f64]) -> Vec<f64> {
     {
         // symmetry and a positive diagonal are necessary but not sufficient for positive
         // definiteness, so fall back to LU if the Cholesky decomposition does not exist
-        let chol = if is_positive_definite(a) {
+        let chol = if is_exactly_symmetric(a) && is_positive_definite(a) {
             try_cholesky(a)
         } else {
             None
